@@ -237,4 +237,8 @@ class Encoder(object):
         return "'%s'" % val.compressed
 
     def cql_encode_decimal(self, val):
-        return self.cql_encode_float(float(val))
+        """
+        Writes a :class:`decimal.Decimal` with all of its digits (going through
+        ``float`` would silently round it to 17 significant digits).
+        """
+        return Decimal.__str__(val)
